@@ -389,6 +389,16 @@ theorem upsample_adds_no_band (e : ι₁ → ι₂) (c : ℂ) (x : ι₁ → ℂ
   rw [map_smul, P₂.inv_right]
   simp [pad_apply_off e _ k hk]
 
+/-- N-D arrays: the masks are outer products of the per-axis masks, i.e. the index embedding is the product of the per-axis
+embeddings — still injective, so all operator theorems apply (here: 2-D round trip for any pairs on the two grids, e.g.
+`prodPair`s / the concrete `zmodPair2`). -/
+theorem up_then_down_id_2d {s₁ s₂ n₁ n₂ : ℕ} (h₁ : s₁ ≤ n₁) (h₂ : s₂ ≤ n₂)
+    (Q₁ : FourierPair (Fin s₁ × Fin s₂)) (Q₂ : FourierPair (Fin n₁ × Fin n₂)) (c c' : ℂ) (hc : c' * c = 1)
+    (x : Fin s₁ × Fin s₂ → ℂ) :
+    down Q₁ Q₂ (Prod.map (embedFin s₁ n₁ h₁) (embedFin s₂ n₂ h₂)) c'
+      (up Q₁ Q₂ (Prod.map (embedFin s₁ n₁ h₁) (embedFin s₂ n₂ h₂)) c x) = x :=
+  up_then_down_id Q₁ Q₂ _ ((embedFin_injective s₁ n₁ h₁).prodMap (embedFin_injective s₂ n₂ h₂)) c c' hc x
+
 /-! ### the `.real` branch (real input) -/
 
 /-- `array.real` -/
